@@ -9,13 +9,16 @@ package varmq
 
 import (
 	"fmt"
+	"strings"
+	"time"
 
 	"github.com/goptics/varmq/internal/simrt"
 )
 
 func init() {
 	register(&Property{ID: "C11",
-		Rule: "base episodes on acknowledging adapters (persistent/distributed, plain/priority) with seeded enqueue/dequeue/acknowledge refusals; each base episode is re-run with a crash at every cut point (all when <= 150 in quick / 400 in thorough, else a seeded sample of 48/128) followed by recovery; non-trivial = crash with non-empty pending/unacked state, or >=1 fault fired; distinct = hash of (schedule, program, crash point)",
+		Pre: c11Pre,
+		Rule: "unencodable-payload layer (6 % of the budget): float64 payloads incl. NaN/Inf on the acknowledging kinds, Add must not report acceptance for what it could not hand to the adapter; base episodes on acknowledging adapters (persistent/distributed, plain/priority) with seeded enqueue/dequeue/acknowledge refusals; each base episode is re-run with a crash at every cut point (all when <= 150 in quick / 400 in thorough, else a seeded sample of 48/128) followed by recovery; non-trivial = crash with non-empty pending/unacked state, or >=1 fault fired; distinct = hash of (schedule, program, crash point)",
 		Gen:    genC11,
 		Hook:   hookC11,
 		Judge:  judgeC11,
@@ -254,4 +257,67 @@ func judgeC11(j *judgeCtx) {
 		}
 	}
 	_ = fmt.Sprintf
+}
+
+// c11Pre — the one way to lose an accepted job that needs no crash: Add answers "accepted" for
+// a payload it could not hand to the adapter (the encoding fails, a fault of the submission
+// path).  Payloads are ints everywhere else in this check, so a slice of the budget runs the
+// float64 pipeline of the C12 harness (NaN and infinities cannot be encoded) on the four
+// acknowledging kinds, with concurrent producers, and looks at nothing but acceptance.
+func c11Pre(p *Property, sum *Summary, fingers map[uint64]bool, deadline time.Time, budget time.Duration) bool {
+	end := time.Now().Add(budget * 6 / 100)
+	ti := 0
+	for i, ty := range c12Types {
+		if ty.name == "float64" {
+			ti = i
+		}
+	}
+	for i := 0; time.Now().Before(end); i++ {
+		seed := c11uSeed(mix(*fSeed^0xc11, uint64(*fShard), uint64(i)), ti)
+		ep, cw := c12Types[ti].run(seed, *fTier)
+		sum.Episodes++
+		sum.Steps += ep.Res.Steps
+		sum.Verdicts[ep.Res.Verdict.String()]++
+		sum.Extra["unencodable_payload_episodes"]++
+		clause, msg := c11uCheck(cw)
+		for _, a := range cw.adds {
+			if !a.Encodable {
+				sum.Faults["unencodable_payloads_submitted"]++
+			}
+		}
+		if ep.LibSwitches > 0 {
+			sum.NonTrivial++
+			fingers[ep.Finger^seed] = true
+		}
+		if clause == "" {
+			continue
+		}
+		_, cw2 := c12Types[ti].run(seed, *fTier)
+		if c2, _ := c11uCheck(cw2); c2 != clause {
+			sum.Infra = fmt.Sprintf("C11 unencodable-payload violation %s of seed %d did not reproduce (got %q)", clause, seed, c2)
+			return true
+		}
+		rf := &ReplayFile{Property: p.ID, Clause: clause, Msg: msg, Seed: seed, Steps: ep.Res.Steps, Trace: []string{"float64 payloads on an acknowledging adapter (C12 pipeline), acceptance only", msg}}
+		rf.Cfg.Prop = "C11U"
+		path := fmt.Sprintf("%s/%s-%s-%d.json", *fRepDir, p.ID, strings.ReplaceAll(clause, ".", "_"), seed)
+		writeJSON(path, rf)
+		sum.Viols = append(sum.Viols, ViolOut{Clause: clause, Msg: msg, Seed: seed, Replay: path})
+		return true
+	}
+	return false
+}
+
+// c11uSeed: the C12 harness derives the payload type from the seed.
+func c11uSeed(base uint64, ti int) uint64 {
+	n := uint64(len(c12Types))
+	return base - base%n + uint64(ti)
+}
+
+func c11uCheck(cw *c12World) (string, string) {
+	for _, a := range cw.adds {
+		if !a.Encodable && a.OK && !a.Foreign {
+			return "C11.d", fmt.Sprintf("Add (id %q) returned true for a payload that cannot be encoded: nothing was handed to the adapter, the accepted job is lost without any crash", a.ID)
+		}
+	}
+	return "", ""
 }
